@@ -9,7 +9,7 @@ use tokio::io::AsyncReadExt;
 use vcore::{bft::*, pipe, *};
 use zksync_concurrency::{ctx, limiter, time};
 use zksync_consensus_network::verif::{Mux, MuxConfig, NoiseStream, StreamQueue};
-use zksync_consensus_roles::{node, validator};
+use zksync_consensus_roles::validator;
 use zksync_protobuf::ProtoFmt;
 
 const FRAME: u64 = 256;
